@@ -36,6 +36,20 @@
 // before it): the kernel compares numbers fast and String values very slowly. The keys the tables are
 // searched by (function, package, variable names) are stored in place, all other texts in the table `strs`.
 //
+// Canonical texts (fields `canon` of an argument, `nrhs` of an assignment, `nrole` of a use): the same
+// text with the local variables of the enclosing function printed by what they ARE instead of by their
+// source name (function ntext): a parameter is `«param i»`; a variable assigned exactly once, whose address
+// is not taken, by a call of a named function is `«full name of the callee»` (`#r` appended for result r > 0
+// of a multi-valued call, ` @ <enclosing constructs>` if the assignment is not at the top level of the
+// function, `~k` for the k-th further variable of the function with the same token); a variable
+// assigned exactly once (address not taken, no element or field of it written) by a call-free selector path
+// over such variables or never-assigned parameters stands for that path (`threshold := lock.Threshold`
+// makes `threshold` print as `«param 3».Threshold`); in `nrole` the used variable itself is `_`. Any other
+// variable (several assignments, address taken, literal / func literal / call of a function value) keeps
+// its name. These texts do not change when a local is renamed or when a call-free path is first bound to
+// a local; `thresholds_agree` and `single_instances_wired` are stated over them and over the var / use
+// indices (def-use), not over names.
+//
 // Fails closed (exit 1, nothing written, a stale output file removed by vlib/trans_appwire.py): a
 // listed function used other than by calling it directly (function value, go/defer of a value, method
 // expression), a needed variable defined by a construct the tool does not model (type switch binding),
@@ -144,6 +158,7 @@ type fnCtx struct {
 	writes   []writeRec
 	aliases  []writeRec // `y := x`, `y = &x`, `y := *x` for a local variable x
 	unsupDef map[types.Object]string
+	tokCache map[types.Object]string // canonical tokens of the locals (assignTokens)
 }
 
 type defRec struct {
@@ -709,6 +724,7 @@ func (f *fnCtx) path(n ast.Node) []string {
 // tables
 
 type argRow struct {
+	canon    int // canonical text (ntext)
 	expr, ty int
 	v, root  int // vars index or -1
 	call     int // calls index or -1
@@ -727,6 +743,7 @@ type callRow struct {
 }
 
 type defRow struct {
+	nrhs   int // canonical text of the right-hand side
 	path   []int
 	rhs    int
 	res    int
@@ -754,9 +771,10 @@ type writeRow struct {
 }
 
 type useRow struct {
-	v    int
-	path []int
-	role int
+	v     int
+	path  []int
+	role  int
+	nrole int // role with the variable itself printed `_` and the other locals canonically
 }
 
 var (
@@ -875,9 +893,173 @@ func isNodeIdx(t types.Type) bool {
 	return ok && r == "cluster" && n.Obj().Name() == "NodeIdx"
 }
 
+// ---------------------------------------------------------------------------------------------------
+// canonical texts
+
+// ownVar: o is a parameter / local variable declared inside f's declaration.
+func (f *fnCtx) ownVar(o types.Object) bool {
+	return o != nil && isLocalVar(o) && f.decl.Pos() <= o.Pos() && o.Pos() < f.decl.End()
+}
+
+// purePath: e is an identifier or a selector chain over one (no call, index, dereference, literal).
+func purePath(e ast.Expr) bool {
+	switch x := ast.Unparen(e).(type) {
+	case *ast.Ident:
+		return true
+	case *ast.SelectorExpr:
+		return purePath(x.X)
+	}
+	return false
+}
+
+func (f *fnCtx) written(o types.Object) bool {
+	for _, w := range f.writes {
+		if w.obj == o {
+			return true
+		}
+	}
+	return false
+}
+
+// stableVar: o keeps one value throughout f: a parameter that is never assigned, or a local assigned once; address not taken.
+func (f *fnCtx) stableVar(o types.Object) bool {
+	if f.addr[o] || f.unsupDef[o] != "" {
+		return false
+	}
+	if strings.HasPrefix(f.kind[o], "param ") || f.kind[o] == "recv" {
+		return len(f.defs[o]) == 0
+	}
+	return f.kind[o] == "" && len(f.defs[o]) == 1
+}
+
+// canonTok is the canonical token of variable o of f ("" = keep the source name).
+func (f *fnCtx) canonTok(o types.Object, depth int) string {
+	p := f.pc
+	if !f.ownVar(o) {
+		return ""
+	}
+	if k := f.kind[o]; k != "" {
+		if strings.HasPrefix(k, "param ") {
+			return "«" + k + "»"
+		}
+		return ""
+	}
+	if tok, ok := f.tokCache[o]; ok {
+		return tok
+	}
+	if !f.stableVar(o) {
+		return ""
+	}
+	d := f.defs[o][0]
+	if d.rhs == nil || d.pre != "" {
+		return ""
+	}
+	rhs := ast.Unparen(d.rhs)
+	if ce, ok := rhs.(*ast.CallExpr); ok {
+		fn, _ := calleeOf(p, ce)
+		if fn == nil {
+			return ""
+		}
+		tok := fullName(fn)
+		if d.res > 0 {
+			tok += fmt.Sprintf("#%d", d.res)
+		}
+		if path := f.path(d.at); len(path) > 0 {
+			tok += " @ " + strings.Join(path, "; ")
+		}
+		return "«" + tok + "»"
+	}
+	if purePath(rhs) && d.res == 0 && depth < 4 && !f.written(o) {
+		root := rootIdent(rhs)
+		ro := p.objOf(root)
+		if ro == nil || !f.ownVar(ro) || !f.stableVar(ro) || f.written(ro) {
+			return ""
+		}
+		return f.ntextDepth(rhs, nil, depth+1)
+	}
+	return ""
+}
+
+// assignTokens fixes the token of every local of f once (so that `~k` suffixes do not depend on the query order).
+func (f *fnCtx) assignTokens() {
+	if f.tokCache != nil {
+		return
+	}
+	p := f.pc
+	var objs []types.Object
+	seen := map[types.Object]bool{}
+	ast.Inspect(f.decl, func(n ast.Node) bool {
+		if id, ok := n.(*ast.Ident); ok {
+			if o := p.info.Defs[id]; o != nil && f.ownVar(o) && f.kind[o] == "" && !seen[o] {
+				seen[o] = true
+				objs = append(objs, o)
+			}
+		}
+		return true
+	})
+	toks := map[types.Object]string{}
+	for _, o := range objs { // source order of the declarations
+		toks[o] = f.canonTok(o, 0)
+	}
+	count := map[string]int{}
+	f.tokCache = map[types.Object]string{}
+	for _, o := range objs {
+		t := toks[o]
+		if strings.HasPrefix(t, "«") && strings.HasSuffix(t, "»") && !strings.Contains(t, "«param ") {
+			count[t]++
+			if k := count[t]; k > 1 {
+				t = strings.TrimSuffix(t, "»") + fmt.Sprintf("~%d»", k)
+			}
+		}
+		f.tokCache[o] = t
+	}
+}
+
+// ntext prints n with the local variables of f replaced by their canonical tokens (self: printed `_`).
+func (f *fnCtx) ntext(n ast.Node, self types.Object) string {
+	f.assignTokens()
+	return f.ntextDepth(n, self, 0)
+}
+
+func (f *fnCtx) ntextDepth(n ast.Node, self types.Object, depth int) string {
+	p := f.pc
+	type saved struct {
+		id   *ast.Ident
+		name string
+	}
+	var undo []saved
+	ast.Inspect(n, func(x ast.Node) bool {
+		id, ok := x.(*ast.Ident)
+		if !ok {
+			return true
+		}
+		o := p.objOf(id)
+		if o == nil || !f.ownVar(o) {
+			return true
+		}
+		tok := ""
+		if self != nil && o == self {
+			tok = "_"
+		} else {
+			tok = f.canonTok(o, depth)
+		}
+		if tok != "" && tok != id.Name {
+			undo = append(undo, saved{id, id.Name})
+			id.Name = tok
+		}
+		return true
+	})
+	var b bytes.Buffer
+	_ = printer.Fprint(&b, p.fset, n)
+	for _, u := range undo {
+		u.id.Name = u.name
+	}
+	return shorten(b.String())
+}
+
 func makeArg(f *fnCtx, e ast.Expr) argRow {
 	p := f.pc
-	a := argRow{expr: intern(p.text(e)), v: -1, root: -1, call: -1, node: e}
+	a := argRow{expr: intern(p.text(e)), canon: intern(f.ntext(e, nil)), v: -1, root: -1, call: -1, node: e}
 	if tv, ok := p.info.Types[e]; ok && tv.Type != nil {
 		a.ty = intern(shorten(types.TypeString(tv.Type, qualifier)))
 	} else {
@@ -1070,7 +1252,7 @@ func main() {
 					if v, ok := vals[nm]; ok {
 						row.args = append(row.args, makeArg(f, v))
 					} else {
-						row.args = append(row.args, argRow{expr: intern("<zero>"), ty: intern("int"), v: -1, root: -1, call: -1})
+						row.args = append(row.args, argRow{expr: intern("<zero>"), canon: intern("<zero>"), ty: intern("int"), v: -1, root: -1, call: -1})
 					}
 				}
 				if len(vals) > 2 {
@@ -1139,8 +1321,10 @@ func main() {
 			dr := defRow{path: internPath(f.path(d.at)), res: d.res, call: -1, callee: intern("")}
 			if d.txt != "" {
 				dr.rhs = intern(d.txt)
+				dr.nrhs = dr.rhs
 			} else {
 				dr.rhs = intern(shorten(d.pre + p.text(d.rhs)))
+				dr.nrhs = intern(shorten(d.pre + f.ntext(d.rhs, nil)))
 			}
 			if d.rhs != nil && d.pre == "" {
 				if ce, ok := ast.Unparen(d.rhs).(*ast.CallExpr); ok {
@@ -1309,52 +1493,63 @@ func main() {
 				}
 				cur = par
 			}
-			subject := p.text(cur)
-			par := f.parents[cur]
-			role := ""
-			switch x := par.(type) {
-			case *ast.CallExpr:
-				if ast.Node(x.Fun) == cur {
-					role = "called " + subject
-					// what the call is: its full text (arguments matter: what is subscribed)
-					role += " | " + p.text(x)
-				} else {
-					for i, a := range x.Args {
-						if ast.Node(a) == cur {
-							cn := p.text(x.Fun)
-							if fn, _ := calleeOf(p, x); fn != nil {
-								cn = fullName(fn)
+			isDef := false
+			build := func(tx func(ast.Node) string) string {
+				subject := tx(cur)
+				par := f.parents[cur]
+				role := ""
+				switch x := par.(type) {
+				case *ast.CallExpr:
+					if ast.Node(x.Fun) == cur {
+						role = "called " + subject
+						// what the call is: its full text (arguments matter: what is subscribed)
+						role += " | " + tx(x)
+					} else {
+						for i, a := range x.Args {
+							if ast.Node(a) == cur {
+								cn := tx(x.Fun)
+								if fn, _ := calleeOf(p, x); fn != nil {
+									cn = fullName(fn)
+								}
+								role = fmt.Sprintf("%s as arg %d of %s", subject, i, cn)
 							}
-							role = fmt.Sprintf("%s as arg %d of %s", subject, i, cn)
 						}
 					}
-				}
-			case *ast.AssignStmt:
-				isL := false
-				for _, l := range x.Lhs {
-					if ast.Node(l) == cur {
-						isL = true
+				case *ast.AssignStmt:
+					isL := false
+					for _, l := range x.Lhs {
+						if ast.Node(l) == cur {
+							isL = true
+						}
 					}
-				}
-				if isL {
-					if cur == ast.Node(id) {
-						return true // a definition: listed in vars
+					if isL {
+						if cur == ast.Node(id) {
+							isDef = true // a definition: listed in vars
+							return ""
+						}
+						role = "written " + subject
+					} else {
+						role = "copied | " + tx(x)
 					}
-					role = "written " + subject
-				} else {
-					role = "copied | " + p.text(x)
+				case *ast.RangeStmt:
+					if ast.Node(x.X) == cur {
+						role = "ranged " + subject
+					}
+				case *ast.UnaryExpr:
+					role = x.Op.String() + subject + " | " + tx(stmtOf(f, cur))
 				}
-			case *ast.RangeStmt:
-				if ast.Node(x.X) == cur {
-					role = "ranged " + subject
+				if role == "" {
+					role = subject + " in | " + tx(headOf(stmtOf(f, cur)))
 				}
-			case *ast.UnaryExpr:
-				role = x.Op.String() + subject + " | " + p.text(stmtOf(f, cur))
+				return role
 			}
-			if role == "" {
-				role = subject + " in | " + p.text(headOf(stmtOf(f, cur)))
+			role := build(p.text)
+			if isDef {
+				return true
 			}
-			useRows = append(useRows, useRow{v: vi, path: internPath(f.path(cur)), role: intern(shorten(role))})
+			self := vars[vi].obj
+			nrole := build(func(n ast.Node) string { return f.ntext(n, self) })
+			useRows = append(useRows, useRow{v: vi, path: internPath(f.path(cur)), role: intern(shorten(role)), nrole: intern(shorten(nrole))})
 			return true
 		})
 	}
@@ -1463,6 +1658,7 @@ structure Arg where
   root  : Option Nat
   isVar : Bool
   call  : Option Nat
+  canon : Nat
 deriving Repr
 
 /-- a listed call: enclosing function, package and name of the called function, enclosing constructs
@@ -1485,6 +1681,7 @@ structure Def where
   res    : Nat
   call   : Option Nat
   callee : Nat
+  nrhs   : Nat
 deriving Repr
 
 structure Var where
@@ -1513,6 +1710,7 @@ structure Use where
   name : Txt
   path : List Nat
   role : Nat
+  nrole : Nat
 deriving Repr
 
 `)
@@ -1521,7 +1719,7 @@ deriving Repr
 	for i, c := range calls {
 		var as []string
 		for _, a := range c.args {
-			as = append(as, fmt.Sprintf("⟨%d, %d, %s, %s, %s⟩", a.expr, a.ty, optNat(a.root), leanBool(a.isVar), optNat(a.call)))
+			as = append(as, fmt.Sprintf("⟨%d, %d, %s, %s, %s, %d⟩", a.expr, a.ty, optNat(a.root), leanBool(a.isVar), optNat(a.call), a.canon))
 		}
 		fmt.Fprintf(&tb, "  -- %d: in %s: %s.%s\n  ⟨%s, %s, %s, %s, [%s], %s⟩%s\n", i, c.fn, c.pkg, c.name, t(c.fn), t(c.pkg), t(c.name), natList(c.path),
 			strings.Join(as, ", "), leanBool(c.spread), sep(i, len(calls)))
@@ -1531,7 +1729,7 @@ deriving Repr
 	for i, v := range vars {
 		var ds []string
 		for _, d := range v.defs {
-			ds = append(ds, fmt.Sprintf("⟨%s, %d, %d, %s, %d⟩", natList(d.path), d.rhs, d.res, optNat(d.call), d.callee))
+			ds = append(ds, fmt.Sprintf("⟨%s, %d, %d, %s, %d, %d⟩", natList(d.path), d.rhs, d.res, optNat(d.call), d.callee, d.nrhs))
 		}
 		fmt.Fprintf(&tb, "  -- %d: %s in %s\n  ⟨%s, %s, %d, %s, [%s], %s⟩%s\n", i, v.name, v.fn, t(v.fn), t(v.name), v.ty, q(v.kind),
 			strings.Join(ds, ", "), leanBool(v.addr), sep(i, len(vars)))
@@ -1549,7 +1747,7 @@ deriving Repr
 	tb.WriteString("]\n\n")
 	tb.WriteString("def uses : List Use := [\n")
 	for i, u := range useRows {
-		fmt.Fprintf(&tb, "  ⟨%d, %s, %s, %s, %d⟩%s\n", u.v, t(vars[u.v].fn), t(vars[u.v].name), natList(u.path), u.role, sep(i, len(useRows)))
+		fmt.Fprintf(&tb, "  ⟨%d, %s, %s, %s, %d, %d⟩%s\n", u.v, t(vars[u.v].fn), t(vars[u.v].name), natList(u.path), u.role, u.nrole, sep(i, len(useRows)))
 	}
 	tb.WriteString("]\n\n")
 	tb.WriteString("/-- non-error returns of the functions that contain a listed call: (function, path, text). -/\n")
